@@ -25,6 +25,7 @@ def tasks(tier):
     for keyed in (0, 1):
         for chunk in ((0, 5) if tier == 'quick' else (0, 1, 5, 13, 30, 40)):
             ts.append(Task('verifHarness_C10_consumer', [keyed, chunk]))
+            ts.append(Task('verifHarness_C10_consumer_custom', [keyed, chunk]))
     return ts
 
 
@@ -37,7 +38,7 @@ def bounds(tier):
                       'unsigned frame), valid frame; all header/payload bytes symbolic (valid frames kept canonical: last payload byte non-zero)',
             'segmentation': 'first transport read of size 0(all),1,7 (quick) / ten sizes (thorough)',
             'write_failure_order_one_schedule': 'three frames received in one piece, a slow application, then a failing write: the close event comes after every received frame and nothing follows it',
-            'consumer_one_schedule': 'the whole channel (run, reader, writer) over frame, junk, frame, frame then end of stream, the harness taking events one at a time from the unbuffered event channel: open, every item in order, one close carrying io.EOF, nothing after, goroutines ended',
+            'consumer_one_schedule': '(also over the connection wrapper of a custom endpoint, the last bytes arriving together with io.EOF) the whole channel (run, reader, writer) over frame, junk, frame, frame then end of stream, the harness taking events one at a time from the unbuffered event channel: open, every item in order, one close carrying io.EOF, nothing after, goroutines ended',
             'close_event_one_schedule': 'Channel.run with reader, writer and run goroutines executed round-robin to quiescence: after a transport read failure (writer idle or stuck in the transport) exactly one close event, carrying the cause, transport closed, no goroutine left, done signalled',
             'NOT DECIDED': 'exactly one close event, close after the last frame, nothing after close, attribution under cross-channel '
                            'interleavings, losslessness under a slow consumer, concurrent writes: schedule clauses (Channel.run joins, '
